@@ -64,13 +64,13 @@ const std::vector<std::string>& roots() {
 }
 
 // A script = optional option changes, then 1..4 rounds of (position, go, follow-ups), then quit/EOF.
-Case genCase(Choices& c, int maxThreads) {
+Case genCase(Choices& c, int maxThreads, int minThreads = 1, bool light = false) {
     Case k;
     auto add = [&](const std::string& kind, const std::string& text, int cond, long long arg) {
         sess::Cmd cmd; cmd.kind = kind; cmd.text = text; k.cmds.push_back(cmd); k.cond.push_back({cond, arg});
         return &k.cmds.back();
     };
-    k.threads = c.range(1, maxThreads);
+    k.threads = c.range(minThreads, maxThreads);
     if (c.chance(1, 3)) add("isready", "isready", coop::C_NOW, 0);
     add("setoption", "setoption name Threads value " + std::to_string(k.threads), coop::C_NOW, 0);
     if (c.chance(1, 2)) add("setoption", "setoption name Hash value " + std::to_string(c.range(1, 16)), coop::C_NOW, 0);
@@ -82,8 +82,8 @@ Case genCase(Choices& c, int maxThreads) {
         if (t == 0) return std::make_pair((int)coop::C_NOW, 0LL);
         if (t == 1) return std::make_pair((int)coop::C_STEPS, (long long)c.range(0, 60));
         if (t == 2) return std::make_pair((int)coop::C_STEPS, (long long)c.range(0, 250));
-        if (t == 3) return std::make_pair((int)coop::C_NODES, (long long)c.range(0, 4000));
-        return std::make_pair((int)coop::C_INFO_LINES, (long long)c.range(1, 6));
+        if (t == 3) return std::make_pair((int)coop::C_NODES, (long long)c.range(0, light ? 300 : 4000));
+        return std::make_pair((int)coop::C_INFO_LINES, (long long)c.range(1, light ? 2 : 6));
     };
     bool ended = false;
     for (int r = 0; r < rounds && !ended; r++) {
@@ -105,9 +105,9 @@ Case genCase(Choices& c, int maxThreads) {
         int kind = c.pick(8);
         if (kind >= 6) { g.goPonder = true; s += " ponder"; }
         int lk = c.pick(5);
-        if (lk == 0) { s += " depth " + std::to_string(c.range(1, 3)); g.goHasLimit = true; }
-        else if (lk == 1) { s += " nodes " + std::to_string(c.range(1, 4000)); g.goHasLimit = true; }
-        else if (lk == 2) { s += " movetime " + std::to_string(c.range(1, 30)); g.goHasLimit = true; }
+        if (lk == 0) { s += " depth " + std::to_string(c.range(1, light ? 2 : 3)); g.goHasLimit = true; }
+        else if (lk == 1) { s += " nodes " + std::to_string(c.range(1, light ? 300 : 4000)); g.goHasLimit = true; }
+        else if (lk == 2) { s += " movetime " + std::to_string(c.range(1, light ? 3 : 30)); g.goHasLimit = true; }
         else if (lk == 3) { s += " infinite"; g.goInfinite = true; }
         else { s += " depth " + std::to_string(c.range(1, 2)); g.goHasLimit = true; }
         g.text = s;
@@ -129,7 +129,7 @@ Case genCase(Choices& c, int maxThreads) {
             if (f == 0) { add("stop", "stop", cd.first, cd.second); lastCanFinish = true; }
             else if (f == 1) { add("ponderhit", "ponderhit", cd.first, cd.second); if (g.goPonder && g.goHasLimit && !g.goInfinite && s.find("movetime") != std::string::npos) lastCanFinish = true; }
             else if (f == 2) add("isready", "isready", cd.first, cd.second);
-            else if (f == 3) add("setoption", "setoption name Threads value " + std::to_string(k.threads = c.range(1, maxThreads)), cd.first, cd.second);
+            else if (f == 3) add("setoption", "setoption name Threads value " + std::to_string(k.threads = c.range(minThreads, maxThreads)), cd.first, cd.second);
             else if (f == 4) add("setoption", "setoption name Hash value " + std::to_string(c.range(1, 16)), cd.first, cd.second);
             else if (f == 5) add("ucinewgame", "ucinewgame", cd.first, cd.second);
             else if (f == 6) add("setoption", "setoption name Clear Hash", cd.first, cd.second);
@@ -150,6 +150,56 @@ Case genCase(Choices& c, int maxThreads) {
     k.spec.pctDepth = c.range(1, 4);
     k.spec.pctMaxSteps = c.of(std::vector<long>{200, 1000, 5000});
     k.spec.lockYield = c.of(std::vector<int>{0, 0, 0, 1, 3, 16});
+    fillScript(k);
+    return k;
+}
+
+// Scripts for two-level helper trees: many short searches (the stop / acknowledge protocol between the threads runs at
+// the end of every search), roots where the helpers idle (mate, stalemate, bare kings), stops released within a few
+// scheduling steps of the go.
+Case genTreeCase(Choices& c, int maxThreads) {
+    Case k;
+    auto add = [&](const std::string& kind, const std::string& text, int cond, long long arg) {
+        sess::Cmd cmd; cmd.kind = kind; cmd.text = text; k.cmds.push_back(cmd); k.cond.push_back({cond, arg});
+    };
+    static const std::vector<std::string> idle = {"rnb1kbnr/pppp1ppp/8/4p3/6Pq/5P2/PPPPP2P/RNBQKBNR w KQkq - 1 3", "7k/8/8/8/8/8/5q2/7K w - - 0 1",
+                                                  "8/8/8/4k3/8/8/4K3/8 w - - 0 1", "7k/5Q2/6K1/8/8/8/8/5n2 b - - 0 1"};
+    k.threads = c.range(6, std::max(6, maxThreads));
+    add("setoption", "setoption name Threads value " + std::to_string(k.threads), coop::C_NOW, 0);
+    add("setoption", "setoption name Hash value " + std::to_string(c.range(1, 4)), coop::C_NOW, 0);
+    int rounds = c.range(2, 6), goes = 0;
+    bool canFinish = true;
+    auto soon = [&]() { return c.chance(1, 3) ? std::make_pair((int)coop::C_NOW, 0LL) : std::make_pair((int)coop::C_STEPS, (long long)c.range(0, 60)); };
+    for (int r = 0; r < rounds; r++) {
+        std::string fen = c.chance(1, 2) ? c.of(idle) : c.of(roots());
+        auto cd = (canFinish && c.chance(3, 4)) ? std::make_pair((int)coop::C_BESTMOVES, (long long)goes) : soon();
+        if (!canFinish) { add("stop", "stop", cd.first, cd.second); canFinish = true; cd = soon(); }
+        add("position", "position fen " + fen, cd.first, cd.second);
+        sess::Cmd g; g.kind = "go"; g.goFen = fen;
+        int lk = c.pick(6);
+        std::string s = "go";
+        if (lk == 0) { s += " depth 1"; g.goHasLimit = true; }
+        else if (lk == 1) { s += " depth 2"; g.goHasLimit = true; }
+        else if (lk == 2) { s += " nodes " + std::to_string(c.range(1, 200)); g.goHasLimit = true; }
+        else if (lk == 3) { s += " infinite"; g.goInfinite = true; }
+        else if (lk == 4) { s += " ponder depth 1"; g.goPonder = true; g.goHasLimit = true; }
+        else { s += " movetime " + std::to_string(c.range(1, 3)); g.goHasLimit = true; }
+        g.text = s;
+        k.cmds.push_back(g); k.cond.push_back({coop::C_NOW, 0});
+        goes++;
+        canFinish = !(g.goInfinite || g.goPonder);
+        int f = c.pick(4);
+        if (!canFinish || f == 0) { auto sd = soon(); add("stop", "stop", sd.first, sd.second); canFinish = true; }
+        else if (f == 1) { auto sd = soon(); add("isready", "isready", sd.first, sd.second); }
+        else if (f == 2 && c.chance(1, 3)) { auto sd = soon(); add("setoption", "setoption name Threads value " + std::to_string(k.threads = c.range(6, std::max(6, maxThreads))), sd.first, sd.second); }
+    }
+    add("quit", "quit", coop::C_BESTMOVES, goes);
+    k.spec.nsPerNode = c.of(std::vector<long long>{200, 1000, 5000});
+    k.spec.strategy = c.of(std::vector<int>{1, 2, 2, 2});
+    k.spec.schedSeed = c.raw() + 1;
+    k.spec.pctDepth = c.range(1, 4);
+    k.spec.pctMaxSteps = c.of(std::vector<long>{100, 300, 1000});
+    k.spec.lockYield = c.of(std::vector<int>{1, 1, 2, 3});
     fillScript(k);
     return k;
 }
@@ -240,6 +290,13 @@ int main(int argc, char** argv) {
     vh::runProp("schedules", nSched, 2.0, [&](Choices& c) {
         Case k = genCase(c, maxThreads);
         runCase("schedules", k, st);
+    });
+    // two-level helper trees (a helper has helper children from Threads = 6 on; WorkerThread::createWorkers gives every
+    // node at most 4 children): schedules in which children overtake their parent helper, i.e. priorities / random picks
+    // with scheduling points at mutexes and right after notifications
+    vh::runProp("helper-tree", a.num("tree-cases", n * 3 / 10), 2.0, [&](Choices& c) {
+        Case k = genTreeCase(c, std::max(maxThreads, 10));
+        runCase("helper-tree", k, st);
     });
     // bounded systematic exploration: baseline run, then one pre-emption at each (sampled) decision point
     long perScript = a.num("dfs-points", 40);
